@@ -773,9 +773,20 @@ func checkC07(c c07Case) (rejected int, grown int, err error) {
 		} else {
 			switch o.Kind {
 			case "newversion", "branch", "merge", "tag", "resolve":
+				// merge / resolve act on the repo that holds their first parent, whatever repo the URL names
+				// (repo_local.go merge(): m.repos[parents[0]]); the statement asks for a well-formed graph, not for
+				// a particular repo, so the new node is looked for where the code puts it
+				effRoot := myRoot
+				if (o.Kind == "merge" || o.Kind == "resolve") && len(wantParents) > 0 {
+					for root, rs := range before.Repos {
+						if _, has := rs.Nodes[wantParents[0]]; has {
+							effRoot = root
+						}
+					}
+				}
 				var added []nodeSnap
-				for u, n := range after.Repos[myRoot].Nodes {
-					if _, had := before.Repos[myRoot].Nodes[u]; !had {
+				for u, n := range after.Repos[effRoot].Nodes {
+					if _, had := before.Repos[effRoot].Nodes[u]; !had {
 						added = append(added, n)
 					}
 				}
@@ -791,7 +802,7 @@ func checkC07(c c07Case) (rejected int, grown int, err error) {
 				if o.Kind != "resolve" {
 					n := added[0]
 					byV := map[int]string{}
-					for u, x := range after.Repos[myRoot].Nodes {
+					for u, x := range after.Repos[effRoot].Nodes {
 						byV[x.Version] = u
 					}
 					var gotP []string
